@@ -36,4 +36,12 @@ example : (coutputs [] (CState.fresh Registry.empty) repeatedSumHistory).drop 4
        .ok (.ans (.descValue ⟨[(7, 2, 1), (5, 2, 1)], [(1, 2)]⟩ (-95 / 100))),
        .ok (.ans (.desc ⟨[(7, 2, 1), (5, 3, 1)], [(1, 2)]⟩))] := by decide +kernel
 
+/-- the hypotheses of `xwarm_eq_fresh_partial` are met by a history with arithmetic questions, and with a
+(toy) meaning of the arithmetic that does look at the registry the outcomes are not trivial -/
+example : arithHistory.all (xopClean []) = true := by decide +kernel
+example : ((xoutputs [] (fun r _ => r.cats.length) (CState.fresh Registry.empty) arithHistory).map
+    (fun o => match o with | .val n => n | .base _ => 100)) = [100, 100, 100, 1, 1, 100, 1] := by decide +kernel
+example : (xrun [] (fun r _ => r.cats.length) (CState.fresh Registry.empty) arithHistory).memo = [((5, 3), true)] := by
+  decide +kernel
+
 end Barril.Reg
